@@ -271,7 +271,8 @@ type pDoc struct {
 }
 
 // items for Marshal / gob.Encode / templates: a tiny description language
-//   doc:<n>:<hex s>:<hex b>:<f>:<l0.l1…>   |  nan  |  inf
+//
+//	doc:<n>:<hex s>:<hex b>:<f>:<l0.l1…>   |  nan  |  inf
 func parseDocItem(s string) pDoc {
 	switch s {
 	case "nan":
@@ -635,7 +636,9 @@ func registerTextOps() {
 	ops := []textOp{
 		{"CamelCase", func([]string) func(ro.Observable[string]) ro.Observable[string] { return rostrings.CamelCase[string]() },
 			func([]string) func(ro.Observable[[]byte]) ro.Observable[[]byte] { return robytes.CamelCase[[]byte]() }},
-		{"Capitalize", func([]string) func(ro.Observable[string]) ro.Observable[string] { return rostrings.Capitalize[string]() },
+		{"Capitalize", func([]string) func(ro.Observable[string]) ro.Observable[string] {
+			return rostrings.Capitalize[string]()
+		},
 			func([]string) func(ro.Observable[[]byte]) ro.Observable[[]byte] { return robytes.Capitalize[[]byte]() }},
 		{"Ellipsis", func(ps []string) func(ro.Observable[string]) ro.Observable[string] {
 			return rostrings.Ellipsis[string](pInt(ps, 0))
@@ -645,7 +648,9 @@ func registerTextOps() {
 			}},
 		{"KebabCase", func([]string) func(ro.Observable[string]) ro.Observable[string] { return rostrings.KebabCase[string]() },
 			func([]string) func(ro.Observable[[]byte]) ro.Observable[[]byte] { return robytes.KebabCase[[]byte]() }},
-		{"PascalCase", func([]string) func(ro.Observable[string]) ro.Observable[string] { return rostrings.PascalCase[string]() },
+		{"PascalCase", func([]string) func(ro.Observable[string]) ro.Observable[string] {
+			return rostrings.PascalCase[string]()
+		},
 			func([]string) func(ro.Observable[[]byte]) ro.Observable[[]byte] { return robytes.PascalCase[[]byte]() }},
 		{"SnakeCase", func([]string) func(ro.Observable[string]) ro.Observable[string] { return rostrings.SnakeCase[string]() },
 			func([]string) func(ro.Observable[[]byte]) ro.Observable[[]byte] { return robytes.SnakeCase[[]byte]() }},
